@@ -7,7 +7,7 @@
    and texts of any length, bundles with any number of policies and assets. *)
 From CSL Require Import Base.Prelude Base.U64 Cbor.Head Num.Decimal Num.U64 Num.IntRange Num.BigIntCbor Num.Value.
 From CSL Require Import Num.U64Proofs Num.DecimalProofs Num.IntRangeProofs Num.BigIntCborProofs Num.ValueProofs.
-From CSL Require Import Num.C14Model Num.C14ModelProofs.
+From CSL Require Import Num.Mint Num.MintProofs Num.C14Model Num.C14ModelProofs.
 Local Open Scope N_scope.
 
 (* ---------------------------------------------------------------------------------------------------------------- *)
@@ -114,6 +114,30 @@ Theorem C14_int_as_negative_refuted : int_in_range int_min = true /\ int_as_nega
 Proof. exact int_as_negative_refuted. Qed.
 Print Assumptions C14_int_as_negative_refuted.
 
+(* Mint::as_positive_multiasset / as_negative_multiasset report, for every asset, exactly the minted / burnt quantity (the sum
+   over the entries of the policy) -- outside the two known classes: a policy that occurs in two entries, and a quantity -2^64 *)
+Theorem C14_mint_as_multiasset_exact : forall (is_positive : bool) (m : mint),
+  mint_wfb m = true -> mint_has_min m = false -> has_dup_policy m = false ->
+  ma_wfb (mint_as_multiasset is_positive m) = true /\
+  forall p n, Z.of_N (ma_qty (mint_as_multiasset is_positive m) p n) = mint_spec_qty is_positive m p n.
+Proof. intros s m W M D. apply mint_as_multiasset_exact; [apply mint_ok_of_bool; assumption | exact D]. Qed.
+Print Assumptions C14_mint_as_multiasset_exact.
+
+Example C14_mint_as_multiasset_example :
+  let m := [([1], [([97], 5%Z); ([98], (- int_max)%Z)]); ([2], [([], int_max)]); ([3], [])] in
+  mint_wfb m = true /\ mint_has_min m = false /\ has_dup_policy m = false /\
+  mint_as_positive_multiasset m = [([1], [([97], 5)]); ([2], [([], two64 - 1)])] /\
+  mint_as_negative_multiasset m = [([1], [([98], two64 - 1)])].
+Proof. exact mint_as_multiasset_example. Qed.
+
+Theorem C14_mint_as_multiasset_refuted :
+  (let m := [([1], [([97], 5%Z)]); ([1], [([98], 7%Z)])] in
+   mint_spec_qty true m [1] [97] = 5%Z /\ ma_qty (mint_as_positive_multiasset m) [1] [97] = 0) /\
+  (let m := [([1], [([97], int_min)])] in
+   mint_spec_qty false m [1] [97] = two64Z /\ ma_qty (mint_as_negative_multiasset m) [1] [97] = 0).
+Proof. split; [exact mint_dup_policy_refuted | exact mint_min_refuted]. Qed.
+Print Assumptions C14_mint_as_multiasset_refuted.
+
 (* ---------------------------------------------------------------------------------------------------------------- *)
 (* Big integers *)
 
@@ -131,6 +155,25 @@ Theorem C14_decimal_roundtrip :
   (forall z : Z, bigint_from_str (bigint_to_str z) = Ok z).
 Proof. split; [exact parse_u64_print | split; [exact parse_i128_print | exact bigint_decimal_roundtrip]]. Qed.
 Print Assumptions C14_decimal_roundtrip.
+
+(* parse side: an accepted literal denotes the number whose printed form is the literal with its optional sign, leading
+   zeros (and, for BigInt, underscores) normalised.  Strict injectivity is false by design of the Rust parsers ("+1", "007",
+   "-0", "1_0" are accepted, see parse_noncanonical_accepted); the value is exact in every case. *)
+Theorem C14_from_str_canonical :
+  (forall s n, bn_from_str s = Ok n -> n < two64 /\ canon_unsigned s = bn_to_str n) /\
+  (forall s z, int_from_str s = Ok z -> int_in_range z = true /\ canon_signed s = int_to_str z) /\
+  (forall s z, bigint_from_str s = Ok z -> canon_bigint s = bigint_to_str z).
+Proof.
+  split; [exact parse_u64_canon|]. split; [|exact parse_bigint_canon].
+  intros s z H. unfold int_from_str in H. destruct (parse_i128 s) as [x| | |] eqn:P; cbn [bind] in H; try discriminate.
+  destruct (int_in_range x) eqn:R; [|discriminate]. injection H as <-. split; [exact R | apply (parse_i128_canon s x P)].
+Qed.
+Print Assumptions C14_from_str_canonical.
+
+Example C14_from_str_noncanonical :
+  parse_u64 [43; 49] = Ok 1 /\ parse_u64 [48; 48; 55] = Ok 7 /\ parse_i128 [45; 48] = Ok 0%Z /\ parse_i128 [43; 48; 53] = Ok 5%Z /\
+  parse_bigint [49; 95; 48] = Ok 10%Z /\ parse_bigint [45; 48; 95] = Ok 0%Z.
+Proof. exact parse_noncanonical_accepted. Qed.
 
 Example C14_bigint_example :
   let z := (- 2 ^ 2000 - 12345)%Z in
@@ -231,12 +274,14 @@ Theorem C14_judge_accepts_model :
      judge_int src (model_int src) = Holds \/
      (judge_int src (model_int src) = Fails cls_as_negative /\ int_obtain src = Some int_min)) /\
   (forall ops, forallb (fun op => int_in_range (mint_op_amount op)) ops = true -> judge_mint ops (model_mint ops) = Holds) /\
+  (forall m, mint_wfb m = true -> mint_has_min m = false -> has_dup_policy m = false -> judge_mintv m (model_mintv m) = Holds) /\
   (forall z, judge_biz z (model_biz z) = Holds) /\
+  (forall s, judge_bnstr s (model_bnstr s) = Holds) /\ (forall s, judge_bistr s (model_bistr s) = Holds) /\
   (forall bs, judge_bibytes bs (model_bibytes bs) = Holds \/ model_bibytes bs = OutOfFuel) /\
   (forall a b, value_wf a -> value_wf b -> judge_val a b (model_val a b) = Holds) /\
   (forall a b c, value_wf a -> value_wf b -> value_wf c -> judge_val3 a b c (model_val3 a b c) = Holds).
 Proof.
-  split; [exact judge_bn_accepts|]. split; [exact judge_int_accepts|]. split; [exact judge_mint_accepts|].
-  split; [exact judge_biz_accepts|]. split; [exact judge_bibytes_accepts|]. split; [exact judge_val_accepts | exact judge_val3_accepts].
+  split; [exact judge_bn_accepts|]. split; [exact judge_int_accepts|]. split; [exact judge_mint_accepts|]. split; [exact judge_mintv_accepts|].
+  split; [exact judge_biz_accepts|]. split; [exact judge_bnstr_accepts|]. split; [exact judge_bistr_accepts|]. split; [exact judge_bibytes_accepts|]. split; [exact judge_val_accepts | exact judge_val3_accepts].
 Qed.
 Print Assumptions C14_judge_accepts_model.
